@@ -644,6 +644,21 @@ func verifLemmaMaxBodyTight(c *channelInstance, m *Message, chunkSize int, chunk
 //@   assumed
 //@   assigns *
 
+// Registration of the response slot: a request id whose slot is still taken is refused and the slot is
+// left alone (the pending request keeps receiving its response); nothing is registered for a request that
+// wants no response.
+//@ func (*SecureChannel).sendAsyncWithTimeout@register
+//@   props C18
+//@   frame_only
+//@   only no-overwrite canary-always-refuses
+//@   use (*channelInstance).signAndEncrypt@frame
+//@   requires s != nil && s.c != nil && seqInv(instance) && instance.algo != nil
+//@   assigns *
+//@   after "instance.newRequestMessage(req,reqID,authToken,timeout)" assigns allbut SecureChannel map[uint32]chan*MessageBody
+//@   ensures [C18:no-overwrite] respRequired && old(in(reqID, s.handlers) && s.handlers[reqID] != nil) ==>
+//@           err != nil && in(reqID, s.handlers) && s.handlers[reqID] == old(s.handlers[reqID])
+//@   canary ensures [C18:canary-always-refuses] respRequired ==> err != nil
+
 //@ func (*SecureChannel).sendRequestWithTimeout
 //@   props C18
 //@   frame_only
